@@ -72,21 +72,23 @@ func zzSetLease(kv *SqliteKV, k *zzKey) {
 	k.token = tok
 }
 
-const zzNCompositions = 9
+const zzNCompositions = 11
 
 // zzPopulate fills kv with key k through the public API according to composition c:
-//   0 nothing                                   1 simple value only (one arbitrary byte)
-//   2 prefix children only (1 and 2 bytes long) 3 lease only (arbitrary non-zero token)
-//   4 all three                                 5 empty non-nil value only
-//   6 Put(nil) only (stored as present, empty)  7 value put then deleted, child appended then removed (nothing left)
-//   8 value overwritten by a second Put, one child, no lease
+//
+//	0 nothing                                   1 simple value only (one arbitrary byte)
+//	2 prefix children only (1 and 2 bytes long) 3 lease only (arbitrary non-zero token)
+//	4 all three                                 5 empty non-nil value only
+//	6 Put(nil) only (stored as present, empty)  7 value put then deleted, child appended then removed (nothing left)
+//	8 value overwritten by a second Put, one child, no lease
+//	9 empty non-nil value, one child and a lease    10 two children appended, the first removed again (one left)
 func zzPopulate(kv *SqliteKV, k *zzKey, c int) {
 	ctx := context.Background()
 	switch c {
 	case 1, 4:
 		k.simple = []byte{rt.U8("value")}
 		rt.Assert(kv.Put(ctx, k.key, k.simple) == nil, "put-works")
-	case 5:
+	case 5, 9:
 		k.simple = []byte{}
 		rt.Assert(kv.Put(ctx, k.key, []byte{}) == nil, "put-works")
 	case 6:
@@ -110,13 +112,19 @@ func zzPopulate(kv *SqliteKV, k *zzKey, c int) {
 		c1 := []byte{rt.U8("child")}
 		rt.Assert(kv.PrefixAppend(ctx, k.key, c1) == nil, "append-works")
 		rt.Assert(kv.PrefixRemove(ctx, k.key, c1) == nil, "remove-works")
-	case 8:
+	case 8, 9:
 		c1 := []byte{rt.U8("child")}
 		rt.Assert(kv.PrefixAppend(ctx, k.key, c1) == nil, "append-works")
 		k.children = [][]byte{c1}
+	case 10:
+		c1, c2 := []byte{rt.U8("child")}, []byte{rt.U8("child"), rt.U8("child-byte2")}
+		rt.Assert(kv.PrefixAppend(ctx, k.key, c1) == nil, "append-works")
+		rt.Assert(kv.PrefixAppend(ctx, k.key, c2) == nil, "append-works")
+		rt.Assert(kv.PrefixRemove(ctx, k.key, c1) == nil, "remove-works")
+		k.children = [][]byte{c2}
 	}
 	switch c {
-	case 3, 4:
+	case 3, 4, 9:
 		zzSetLease(kv, k)
 	}
 	zzClean("populate")
